@@ -243,6 +243,7 @@ class Executor:
         self.opaque = opaque or {}
         self.depth = 0
         self.dyn = 0
+        self.opaque_attrs = {}     # attribute name -> Coq projection function, for attributes read from opaque values
         self.obj_methods = {}      # record name -> {method name -> fn(ex, node, receiver, args, kwargs)}
 
     # ---- expressions
@@ -280,6 +281,8 @@ class Executor:
                 fail(n, f"unknown field of {base.name}")
             if isinstance(base, Vec) and n.attr == "shape":
                 return Static(("len", base))
+            if isinstance(base, Sc) and base.ty == "O" and n.attr in self.opaque_attrs:
+                return Sc("O", f"({self.opaque_attrs[n.attr]} {base.t})")
             if isinstance(base, (Sc, Num, Vec)) and n.attr == "dtype":
                 return Static("dtype")
             if isinstance(base, (Sc, Num)) and n.attr == "ndim":
